@@ -773,6 +773,11 @@ def harnesses(tier):
             if q and par in ("oe", "eo") and w > 0:
                 continue
             hs.append(Harness(f"copula.{par}.{w}", h_copula, {"parity": par, "which": w}, max_paths=6000, batch=2))
+    # the refinement of a coupled pair to a maximum time step (same harness as C15's, obligations reported here): both components keep
+    # their own values at the inserted times
+    from .c15_paths import h_finer
+
+    hs.append(Harness("finer.coupling.2", h_finer, {"which": "coupling", "njumps": 2, "prefix": "C03"}, max_paths=20000, batch=20))
     for par in ("after_ee", "after_eo", "after_oe"):
         hs.append(Harness(f"copula.{par}", h_copula, {"parity": par}, max_paths=6000, batch=2))
     hs.append(Harness("twin", h_twin, twin="must_fail"))
